@@ -1,5 +1,6 @@
 """Shared plumbing of the run-level properties (engine runsim)."""
 import random
+import re
 
 from .. import gen, runsim
 from ..driver import derive_seed
@@ -9,6 +10,38 @@ REAL_CODE = ("everything under jellyfysh/ in a scratch copy of /repo's working t
              "event handlers, potentials (two C extensions), liftings, walker, estimators, input/output handlers")
 STUBBED = ("nothing in the system under simulation; the PRNG is the seeded facade stream, output files go to a "
            "private scratch directory, stdout is swallowed")
+
+
+_TIME_ERROR = re.compile(r"The last returned event time ([0-9][0-9.e+-]*) calculated by .*? is greater than the new "
+                         r"smallest event time ([0-9][0-9.e+-]*) calculated by")
+
+
+def crash_signature(text):
+    """Exception type and innermost function of a traceback (keeps minimisation on the same crash)."""
+    lines = [line for line in text.strip().splitlines() if line.strip()]
+    kind = lines[-1].split(":")[0].strip() if lines else "?"
+    where = [line.strip() for line in lines if line.strip().startswith("File ")]
+    function = where[-1].rsplit(" in ", 1)[-1] if where else "?"
+    return "%s in %s" % (kind, function)
+
+
+def classify_crash(text, notes=None):
+    """Marks the one crash that is a recorded finding: a candidate event time a rounding error before the current
+    time (a potential returned a displacement of about -1e-17), refused by the scheduler.  The shadow scheduler must
+    confirm it: both times normalised, the candidate strictly earlier by at most 1e-12."""
+    if "_event_time_increasing" not in text:
+        return {}
+    facts = (notes or {}).get("refused_get")
+    if not facts or not facts["normalised"] or not (0.0 < facts["behind_by"] <= 1e-12):
+        return {}
+    for m in _TIME_ERROR.finditer(text.replace("\n", " ")):
+        try:
+            last, new = float(m.group(1)), float(m.group(2))
+        except ValueError:
+            continue        # the source line quoted in the traceback
+        if 0.0 <= last - new <= 1e-9 * max(1.0, abs(last)):
+            return {"event_time_rounding": True}
+    return {}
 
 
 def plan_runs(prop, tier, master_seed, counts, families=None, events=None, vary=True):
@@ -54,7 +87,9 @@ def execute_runsim(task, package_dir, monitor_factories, crash_property, nontriv
             relevant = any(any(anchor in f for anchor in crash_anchor_files) for f in files)
         if relevant:
             summary["violations"].append({"property": crash_property, "oracle": "crash", "step": result.events,
-                                          "detail": {"traceback": (result.error or "")[-2500:]}})
+                                          "detail": dict(classify_crash(result.error or "", result.notes),
+                                                         crash_signature=crash_signature(result.error or ""),
+                                                         traceback=(result.error or "")[-2500:])})
     summary["nontrivial"] = bool(nontrivial(result)) and result.status in ("ok", "capped")
     summary["sample"] = sample(result, scn) if sample else {"scenario": scn, "events": result.events,
                                                           "kinds": dict(result.kinds)}
